@@ -37,8 +37,9 @@ def child_text(child):
     return Hole(("txt", tag), "text")
 
 
-def drive(gen, answer=child_text):
-    """run an interpreted generator to completion; -> (yields, result)"""
+def drive(gen, answer=child_text, compose=None):
+    """run an interpreted generator to completion; -> (yields, result).
+    compose=(machine, qm): real (non-opaque) child nodes are answered by R_text."""
     ys = []
     sent = None
     while True:
@@ -55,7 +56,40 @@ def drive(gen, answer=child_text):
             continue
         ys.append(dict(prec=y[0], child=y[1], generic=tuple(g[0].tag for g in c.generic),
                        segs=tuple(g[0] for g in c.generic)))
-        sent = answer(y[1])
+        if compose is not None and not isinstance(y[1], Opaque) and isinstance(y[1], ast.AST):
+            sent = R_text(compose[0], y[1], y[0], compose[1])
+        elif compose is not None:
+            sent = child_text(y[1])
+        else:
+            sent = answer(y[1])
+
+
+def R_text(m, node, slot_prec, qm='"'):
+    """The trampoline CONTRACT R(t, s, q) (DESIGN A1) for a partly concrete tree: the text
+    of the real generator of `node` with every requested child answered by R again,
+    wrapped in parentheses iff node_prec > slot_prec.  Opaque children are holes."""
+    if isinstance(node, Opaque):
+        return child_text(node)
+    mod = eu()
+    fn = mod._Node.gen_map[type(node)]
+    np_ = m.call_value(mod.get_node_precedence, node)
+    if fn in (mod.unparse_Constant, mod.unparse_JoinedStr):
+        myqm = {"'": '"', '"': "'"}[qm]
+        gen = m.call_value(fn, node, myqm)
+    elif fn is mod.unparse_FormattedValue:
+        myqm = qm
+        gen = m.call_value(fn, node, myqm)
+    else:
+        myqm = qm
+        gen = m.call_value(fn, node)
+    from olvc.interp import IGen
+    if isinstance(gen, IGen):
+        ys, res = drive(gen, lambda ch, p=None: None, compose=(m, myqm))
+    else:
+        res = gen
+    if np_ > slot_prec:
+        return tcat("(", res, ")")
+    return res
 
 
 # ----------------------------------------------------------------------------------------
@@ -151,6 +185,11 @@ def node_shapes():
     S["Name"] = one(lambda: ast.Name(id=ident("id"), ctx=ast.Load()))
     S["Attribute"] = one(lambda: ast.Attribute(value=O("value"), attr=ident("attr"), ctx=ast.Load()))
     S["Subscript"] = one(lambda: ast.Subscript(value=O("value"), slice=O("slice"), ctx=ast.Load()))
+    def mk_sub_tuple():
+        sl = ast.Slice(lower=O("sl.lower"), upper=O("sl.upper"), step=None)
+        return ast.Subscript(value=O("value"),
+                             slice=ast.Tuple(elts=[seg("E1"), sl, seg("E2")], ctx=ast.Load()), ctx=ast.Load())
+    S["Subscript"].append(("slice=tuple-with-a-slice", mk_sub_tuple))
     S["Slice"] = one(lambda: ast.Slice(lower=optional("lower"), upper=optional("upper"), step=optional("step")))
     S["Starred"] = one(lambda: ast.Starred(value=O("value"), ctx=ast.Load()))
     S["Call"] = one(lambda: ast.Call(func=O("func"), args=[seg("args")],
@@ -194,6 +233,9 @@ def node_shapes():
 # spec side: productions and requested children
 
 
+CUR_M = [None]  # machine of the current path (spec side may call verified contracts)
+
+
 def TX(child):
     return child_text(child)
 
@@ -211,6 +253,22 @@ def production(node):
         # redundant parentheses around the object are allowed (and needed for `(1).real`)
         return [tcat(TX(node.value), ".", node.attr), tcat("(", TX(node.value), ")", ".", node.attr)]
     if k is ast.Subscript:
+        elts, has_slice = subscript_tuple(node.slice)
+        if elts is not None and has_slice:
+            # slices: ','.(slice | starred_expression)+ [','] -- a BARE tuple: a
+            # parenthesised tuple atom cannot contain a Slice
+            def item(e):
+                if isinstance(e, ast.Slice):
+                    # the text of a Slice is decided by unparse_Slice's own contract
+                    return R_text(CUR_M[0], e, 10 ** 6)
+                return TX(e)
+            inner = Join(",", smap(elts, item))
+            n = ops.sym_len(elts)
+            single = (n == 1) if isinstance(n, int) else ctx().branch(ops.zint(n) == 1)
+            with_comma = tcat(TX(node.value), "[", inner, ",", "]")
+            if single:
+                return with_comma
+            return [tcat(TX(node.value), "[", inner, "]"), with_comma]
         return tcat(TX(node.value), "[", TX(node.slice), "]")
     if k is ast.Slice:
         lo = TX(node.lower) if node.lower is not None else ""
@@ -295,6 +353,26 @@ def production(node):
     raise KeyError(k)
 
 
+def subscript_tuple(sl):
+    """(elts, contains a Slice) if the subscript is known to be a tuple, else (None, False)"""
+    if isinstance(sl, ast.Tuple):
+        elts = sl.elts
+    elif isinstance(sl, Opaque) and sl.cands == frozenset([ast.Tuple]):
+        elts = ops.opaque_getattr(sl, "elts")
+    else:
+        return None, False
+    has = False
+    for e in elts:
+        for it in (e.items if isinstance(e, Seg) else [e]):
+            if isinstance(it, ast.Slice) or (isinstance(it, Opaque) and it.cands == frozenset([ast.Slice])):
+                if isinstance(e, Seg):
+                    nz, _ = ctx().valid(ops.zint(e.length) > 0)
+                    has = has or nz
+                else:
+                    has = True
+    return elts, has
+
+
 def lambda_production(node):
     """lambdef: 'lambda' [lambda_params] ':' expression
     lambda_params: slash_no_default | slash_with_default | param(_with_default)* ['*' ...] ['**' ...]"""
@@ -365,7 +443,15 @@ def requested_children(node):
         add(node.value, "value")
     elif k is ast.Subscript:
         add(node.value, "value")
-        add(node.slice, "slice")
+        elts, has_slice = subscript_tuple(node.slice)
+        if elts is not None and has_slice:
+            sl_slot = dict(G.slot(ast.Tuple, "elts"))
+            sl_slot["slice"] = True  # elements of a bare subscript tuple may be slices
+            for x in elts:
+                if not isinstance(x, ast.AST):
+                    out.append((x, sl_slot, "Subscript.slice.elts"))
+        elif isinstance(node.slice, Opaque):
+            add(node.slice, "slice")
     elif k is ast.Slice:
         add(node.lower, "lower")
         add(node.upper, "upper")
